@@ -40,6 +40,19 @@ pub fn root_cause_key(text: &str, rule: &str, context: &str, offset: usize) -> S
         // markup inside an entity's replacement text is not parsed at all (it is treated as text)
         return "c02.accept.entity-replacement-text-not-parsed".to_string();
     }
+    // The recognizer reports an error found *inside* an entity's replacement text at the offset of the reference
+    // that included it, under the rule of the markup that is wrong there (bad-markup-decl, unterminated-tag, ...):
+    // the same root cause as entity-content-not-wf.
+    if let Some(rest) = text.get(offset..) {
+        if let Some(r) = rest.strip_prefix('&') {
+            let name_len = r.chars().take_while(|c| crate::oracle::chars::is_name_char(*c)).map(|c| c.len_utf8()).sum::<usize>();
+            let is_entity_ref = name_len > 0 && r[name_len..].starts_with(';') && !r.starts_with('#');
+            let about_the_reference = matches!(rule, "undeclared-entity" | "entity-recursion" | "unparsed-entity-ref" | "external-entity-in-attr" | "lt-in-entity-used-in-attr" | "entity-ref-syntax");
+            if is_entity_ref && !about_the_reference && context != "attr-value" {
+                return "c02.accept.entity-replacement-text-not-parsed".to_string();
+            }
+        }
+    }
     if let Some(rest) = text.get(offset..) {
         let mut r = rest;
         for p in ["<?", "</", "<!", "<", "&", "%"] {
